@@ -94,6 +94,14 @@ theorem C14_w_open_exp_field_value :
      | .ok r => (match r.val.mag with | .fin q => decide ((9 : Rat) / 10 ^ 29 ≤ q) | _ => false)
      | .error _ => false) = true := by decide +kernel
 
+/-- class `near-max-overflow` (finding C14-F9): FLT_MAX in its own 9-digit spelling lies in the normal range but inside the
+margin `C14_accuracy_partial` excludes (`|v| (1 + δ) ≤ max` fails); the range-checking variant reports a range error
+and returns infinity -/
+theorem C14_w_open_near_max :
+    (match parseFloat .F32 true (bz "3.40282347e+38") with
+     | .ok r => (match r.val.mag with | .inf => r.erange | _ => false)
+     | .error _ => false) = true := by decide +kernel
+
 /-! ### non-vacuity samples of the proved theorems -/
 /-- "  +12345:" is an integer lexeme (hypotheses of `C14_accuracy_partial`) and parses to 12345 exactly -/
 theorem C14_w_accuracy_sample :
